@@ -787,7 +787,7 @@ Example ex_tsv :
   = Ok [[10; 20]; [12; 22]].
 Proof. vm_compute. reflexivity. Qed.
 
-(* ---- outside the two failure classes the export returns ----------------------- *)
+(* ---- outside the failure classes the export returns ---------------------------- *)
 Section Total.
   Variable A : Type.
   Variables (d z : A) (enum : Z -> A).
@@ -811,85 +811,173 @@ Section Total.
       exists (f :: fs). split; [reflexivity|constructor; assumption].
   Qed.
 
+  Definition nd (k : kind) : bool :=
+    match k with KImage | KTrace | KOther => true | _ => false end.
+
+  Lemma whole_total n k parts :
+    (forall p, In p parts -> nd k = true -> p_fancy p = true) ->
+    exists cs, bind_all A (part_whole A enum n k) parts = Ok cs.
+  Proof.
+    intros H. apply bind_all_total. intros p Hp. unfold part_whole.
+    destruct k; eauto; rewrite (H p Hp eq_refl); eauto.
+  Qed.
+
+  Lemma filtered_total cfg f fl :
+    (forall p, In p (f_parts f) ->
+       in_range (len (p_data p)) (where_ fl) = true
+       /\ (nd (f_kind f) = false -> f_kind f <> KContour ->
+           len fl = len (p_data p))
+       /\ (nd (f_kind f) = true -> p_slice p = true -> p_fancy p = true)) ->
+    exists cs, store_filtered A d z enum cfg f fl = Ok cs.
+  Proof.
+    intros H. unfold store_filtered.
+    destruct (where_ fl) eqn:Ew; [eauto|]. rewrite <- Ew in H. clear Ew.
+    apply bind_all_total. intros p Hp. destruct (H p Hp) as (Hr & Hs & Hf).
+    unfold part_filtered, part_stacks.
+    destruct (f_kind f) eqn:Ek; cbn [nd] in Hs, Hf; rewrite ?Hr.
+    - rewrite (Hs eq_refl ltac:(discriminate)), Z.eqb_refl. eauto.
+    - rewrite (Hs eq_refl ltac:(discriminate)), Z.eqb_refl. eauto.
+    - eauto.
+    - destruct (p_slice p); [rewrite (Hf eq_refl eq_refl)|]; cbn [negb bind]; eauto.
+    - destruct (p_slice p); [rewrite (Hf eq_refl eq_refl)|]; cbn [negb bind]; eauto.
+    - destruct (p_slice p); [rewrite (Hf eq_refl eq_refl)|]; cbn [negb bind]; eauto.
+  Qed.
+
   Lemma in_range_where n f : len f <= n -> in_range n (where_ f) = true.
   Proof.
     intros H. unfold in_range. apply forallb_forall. intros j Hj.
     apply where_in_range in Hj. lia.
   Qed.
 
-  Lemma part_guard_len ds filtered k p :
-    part_guard A ds filtered k p = true -> len (p_data p) = ds_len ds.
-  Proof. unfold part_guard. intros H. apply andb_prop in H. lia. Qed.
+  (* facts a guarded array provides *)
+  Lemma part_guard_facts ds filtered k p :
+    part_guard A ds filtered k p = true ->
+    len (p_data p) <= ds_len ds
+    /\ (nd k = false -> k <> KContour -> len (p_data p) = ds_len ds)
+    /\ (nd k = true -> p_fancy p = true
+        \/ (p_slice p = false /\ filtered = true /\ ds_hdf5 ds = false)).
+  Proof.
+    unfold part_guard. intros H. destruct k; cbn [nd].
+    - split; [lia|]. split; [intros; lia|discriminate].
+    - split; [lia|]. split; [intros; lia|discriminate].
+    - split; [lia|]. split; [congruence|discriminate].
+    - apply andb_prop in H. destruct H as [H1 H2]. split; [lia|].
+      split; [discriminate|]. intros _.
+      destruct (p_fancy p); [now left|right].
+      destruct (p_slice p), filtered, (ds_hdf5 ds); cbn in H2; try discriminate; auto.
+    - apply andb_prop in H. destruct H as [H1 H2]. split; [lia|].
+      split; [discriminate|]. intros _.
+      destruct (p_fancy p); [now left|right].
+      destruct (p_slice p), filtered, (ds_hdf5 ds); cbn in H2; try discriminate; auto.
+    - apply andb_prop in H. destruct H as [H1 H2]. split; [lia|].
+      split; [discriminate|]. intros _.
+      destruct (p_fancy p); [now left|right].
+      destruct (p_slice p), filtered, (ds_hdf5 ds); cbn in H2; try discriminate; auto.
+  Qed.
 
-  Lemma feat_calls_total cfg ds filt filtered f :
+  (* no clipping of the filter: every array spans the dataset *)
+  Lemma feat_total_plain cfg ds filt filtered f :
     len filt = ds_len ds -> feat_guard ds filtered f = true ->
+    (forall p, In p (f_parts f) -> len (p_data p) = ds_len ds) ->
     exists cs, feat_calls A d z enum cfg ds
                  (if filtered then Some filt else None) f = Ok cs.
   Proof.
-    intros Hlen Hg. unfold feat_guard in Hg. rewrite forallb_forall in Hg.
+    intros Hlen Hg Hall. unfold feat_guard in Hg. rewrite forallb_forall in Hg.
     assert (Hwhole : ds_hdf5 ds = true \/ filtered = false ->
               exists cs, bind_all A (part_whole A enum (f_name f) (f_kind f))
                            (f_parts f) = Ok cs).
-    { intros Hfast. apply bind_all_total. intros p Hp. specialize (Hg p Hp).
-      unfold part_guard in Hg. unfold part_whole.
-      destruct (f_kind f); eauto;
-        (replace (p_fancy p) with true
-           by (destruct (p_fancy p), (p_slice p), filtered, (ds_hdf5 ds);
-               cbn in *; destruct Hfast; congruence || lia); eauto). }
+    { intros Hfast. apply whole_total. intros p Hp Hnd.
+      destruct (part_guard_facts _ _ _ _ (Hg p Hp)) as (_ & _ & Hf).
+      destruct (Hf Hnd) as [Hy|(_ & H2 & H3)]; [assumption|].
+      destruct Hfast; congruence. }
     unfold feat_calls. destruct filtered; [|apply Hwhole; now right].
     destruct (forallb (fun b => b) filt && ds_hdf5 ds) eqn:Ef.
     - apply Hwhole. left. apply andb_prop in Ef. tauto.
-    - unfold store_filtered. destruct (where_ filt) as [|i0 t0] eqn:Ew; [eauto|].
-      clear Ew. apply bind_all_total. intros p Hp. specialize (Hg p Hp).
-      pose proof (part_guard_len _ _ _ _ Hg) as Hl.
-      assert (Hr : in_range (len (p_data p)) (where_ filt) = true)
-        by (apply in_range_where; lia).
-      unfold part_guard in Hg. unfold part_filtered, part_stacks.
-      replace (len filt =? len (p_data p)) with true by lia. rewrite Hr.
-      destruct (f_kind f); eauto;
-        (destruct (p_slice p) eqn:Es; [|cbn [bind]; eauto];
-         replace (p_fancy p) with true
-           by (destruct (p_fancy p); cbn in *; congruence || lia);
-         cbn [negb bind]; eauto).
-  Qed.
-
-  Lemma filter_arr_equal ds filt filtered skip fs :
-    (forall x, In x (lengths A fs) -> x = ds_len ds) ->
-    filter_arr A ds filt filtered skip fs = if filtered then Some filt else None.
-  Proof.
-    intros H. unfold filter_arr. destruct skip; [reflexivity|].
-    destruct (lengths A fs) as [|h t] eqn:El; [reflexivity|].
-    rewrite (H _ (zmin_in h t)), (H _ (zmax_in h t)), Z.eqb_refl. reflexivity.
+    - apply filtered_total. intros p Hp.
+      destruct (part_guard_facts _ _ _ _ (Hg p Hp)) as (_ & _ & Hf).
+      pose proof (Hall p Hp) as Hl.
+      split; [apply in_range_where; lia|]. split; [intros; lia|].
+      intros Hnd Hs. destruct (Hf Hnd) as [Hy|(H1 & _)]; congruence.
   Qed.
 
   Lemma export_total_partial cfg ds filt filtered skip req :
     len filt = ds_len ds ->
-    export_guard A ds filtered req = true ->
+    export_guard A ds filtered skip req = true ->
     exists calls cnt,
       export A d z enum cfg ds filt filtered skip req = Ok (calls, cnt).
   Proof.
-    intros Hlen Hg. unfold export_guard in Hg.
+    intros Hlen Hg. unfold export_guard in Hg. apply andb_prop in Hg.
+    destruct Hg as [Hg Hl].
     destruct (lookup_all_total ds filtered (sortset req) Hg) as (fs & El & HF).
-    unfold export. rewrite El. cbn [bind].
+    rewrite El in Hl. unfold export. rewrite El. cbn [bind].
     rewrite Forall_forall in HF.
-    rewrite filter_arr_equal.
-    - destruct (bind_all_total A (feat_calls A d z enum cfg ds
-                   (if filtered then Some filt else None)) fs) as (calls & ->).
-      + intros f Hf. apply feat_calls_total; auto.
-      + cbn [bind]. eauto.
-    - intros x Hx. unfold lengths in Hx. apply in_flat_map in Hx.
-      destruct Hx as (f & Hf & Hx). apply in_map_iff in Hx.
-      destruct Hx as (p & <- & Hp). specialize (HF f Hf).
-      unfold feat_guard in HF. rewrite forallb_forall in HF.
-      eapply part_guard_len, HF, Hp.
+    enough (Hfeat : forall f, In f fs -> exists cs,
+              feat_calls A d z enum cfg ds
+                (filter_arr A ds filt filtered skip fs) f = Ok cs).
+    { destruct (bind_all_total A _ fs Hfeat) as (calls & ->). cbn [bind]. eauto. }
+    assert (Hpg : forall f p, In f fs -> In p (f_parts f) ->
+              part_guard A ds filtered (f_kind f) p = true).
+    { intros f p Hf Hp. specialize (HF f Hf). unfold feat_guard in HF.
+      rewrite forallb_forall in HF. now apply HF. }
+    assert (Hle : forall x, In x (lengths A fs) -> x <= ds_len ds).
+    { intros x Hx. apply lengths_inv in Hx. destruct Hx as (f & p & Hf & Hp & ->).
+      now destruct (part_guard_facts _ _ _ _ (Hpg f p Hf Hp)). }
+    unfold filter_arr, lens_guard in *.
+    assert (Hplain : (forall x, In x (lengths A fs) -> x = ds_len ds) ->
+              forall f, In f fs -> exists cs, feat_calls A d z enum cfg ds
+                (if filtered then Some filt else None) f = Ok cs).
+    { intros Hall f Hf. apply feat_total_plain; auto.
+      intros p Hp. apply Hall. now apply in_lengths with (f := f). }
+    destruct skip.
+    - apply Hplain. intros x Hx. rewrite forallb_forall in Hl.
+      specialize (Hl x Hx). lia.
+    - destruct (lengths A fs) as [|h t] eqn:Els.
+      + apply Hplain. intros x [].
+      + set (lmin := zmin_list h t) in *. set (lmax := zmax_list h t) in *.
+        apply existsb_exists in Hl. destruct Hl as (x0 & Hx0 & Ex0).
+        assert (Ex : x0 = ds_len ds) by lia. subst x0. clear Ex0.
+        pose proof (zmin_le h t _ Hx0) as H1. fold lmin in H1.
+        pose proof (zmax_ge h t _ Hx0) as H2. fold lmax in H2.
+        pose proof (Hle _ (zmax_in h t)) as H3. fold lmax in H3.
+        destruct (lmin =? lmax) eqn:Eq.
+        * apply Hplain. intros x Hx.
+          pose proof (zmin_le h t _ Hx). pose proof (zmax_ge h t _ Hx).
+          fold lmin in H. fold lmax in H0. lia.
+        * assert (H0 : 0 <= lmin).
+          { pose proof (zmin_in h t) as Hi. fold lmin in Hi. rewrite <- Els in Hi.
+            apply lengths_inv in Hi. destruct Hi as (f' & p' & _ & _ & ->).
+            apply len_nonneg. }
+          set (base := match (if filtered then Some filt else None) with
+                       | Some f0 => f0
+                       | None => repeat true (Z.to_nat (ds_len ds))
+                       end).
+          assert (Hbase : len base = ds_len ds).
+          { unfold base. destruct filtered; [assumption|].
+            unfold len. rewrite repeat_length.
+            pose proof (len_nonneg filt). lia. }
+          intros f Hf. unfold feat_calls.
+          rewrite forallb_trunc_false by lia. cbn [andb].
+          apply filtered_total. intros p Hp.
+          destruct (part_guard_facts _ _ _ _ (Hpg f p Hf Hp)) as (Ha & Hb & Hc).
+          assert (Hin : In (len (p_data p)) (h :: t)).
+          { rewrite <- Els. now apply in_lengths with (f := f). }
+          pose proof (zmin_le h t _ Hin) as Hm. fold lmin in Hm.
+          split; [|split].
+          -- unfold in_range. apply forallb_forall. intros j Hj.
+             rewrite where_trunc in Hj by assumption.
+             apply filter_In in Hj. destruct Hj as [Hj1 Hj2].
+             apply where_in_range in Hj1. lia.
+          -- intros Hn Hk. rewrite (Hb Hn Hk). unfold len in *.
+             rewrite trunc_length. lia.
+          -- intros Hn Hs. destruct (Hc Hn) as [Hy|(Hy & _)]; congruence.
   Qed.
 End Total.
 
 Example ex_guard :
   export_guard Z (mkDs Z false 4 4
       [mkFeat Z 0 KScalar [mkPart Z 0 true true 8 [10; 11; 12; 13]];
-       mkFeat Z 1 KImage [mkPart Z 0 false false 54 [20; 21; 22; 23]]])
-    true [1; 0; 1] = true.
+       mkFeat Z 1 KImage [mkPart Z 0 false false 54 [20; 21; 22]]])
+    true false [1; 0; 1] = true.
 Proof. vm_compute. reflexivity. Qed.
 
 (* ---- uniform event count, metadata ------------------------------------------- *)
@@ -942,10 +1030,10 @@ Section Uniform.
       rewrite (Hc f p Hf Hp). now apply spec_content_len.
   Qed.
 
-  Lemma export_meta_spec rnd cfg ds innate sm filt filtered skip logs tables
+  Lemma export_meta_spec rnd cfg pre ds innate sm filt filtered skip logs tables
         basins features (calls : list (call A)) om :
     wf_ds A ds -> len filt = ds_len ds ->
-    export_full A d z enum rnd cfg ds innate sm filt filtered skip logs tables
+    export_full A d z enum rnd cfg pre ds innate sm filt filtered skip logs tables
                 basins features = Ok (calls, om) ->
     exists cnt,
       export A d z enum cfg ds filt filtered skip (req_features features innate)
@@ -958,13 +1046,9 @@ Section Uniform.
                           | None => None
                           end)
       /\ om_sample om = sm_sample sm
-      /\ (forall l, In l (om_logs om) <-> logs = true /\ In l (sm_logs sm))
-      /\ (forall t, In t (om_tables om) <-> tables = true /\ In t (sm_tables sm))
       /\ (features = None -> forall n k, ~ In n innate -> content A calls n k = [])
       /\ (features = Some [] ->
-            calls = [] /\ cnt = if filtered then count_true filt else ds_count ds)
-      /\ (forall b, export_full A d z enum rnd cfg ds innate sm filt filtered skip
-                      logs tables b features = Ok (calls, om)).
+            calls = [] /\ cnt = if filtered then count_true filt else ds_count ds).
   Proof.
     intros Hwf Hlen H. unfold export_full in H.
     destruct (export A d z enum cfg ds filt filtered skip
@@ -972,12 +1056,9 @@ Section Uniform.
       cbn [bind] in H; [|discriminate].
     cbn [fst snd] in H. inversion H; subst calls om. clear H.
     exists cnt. split; [reflexivity|]. split; [reflexivity|].
-    cbn [om_runid om_sample om_logs om_tables export_meta].
+    cbn [om_runid om_sample export_meta].
     split; [intros ->; reflexivity|]. split; [intros ->; reflexivity|].
-    split; [reflexivity|].
-    split; [intros l; destruct logs; cbn [In]; intuition congruence|].
-    split; [intros t; destruct tables; cbn [In]; intuition congruence|].
-    split; [|split].
+    split; [reflexivity|]. split.
     - intros -> n k Hn. cbn [req_features] in E.
       destruct (export_selects A d z enum cfg ds filt filtered skip innate cs cnt
                   Hwf Hlen E) as (fs & _ & _ & _ & Hno & _).
@@ -986,18 +1067,86 @@ Section Uniform.
       cbn [sortset fold_right lookup_all bind bind_all] in E.
       unfold filter_arr, event_count in E. cbn [lengths flat_map] in E.
       destruct skip, filtered; inversion E; split; reflexivity.
-    - intros b. unfold export_full. rewrite E. reflexivity.
   Qed.
 End Uniform.
 
+(* ---- logs and tables: contents under the prefixed names ------------------------- *)
+Lemma text_miss pre (src : list text) m :
+  (forall n, In n (map fst src) -> pre n <> m) ->
+  text_content (text_calls true pre src) m = [].
+Proof.
+  induction src as [|[n0 l0] t IH]; intros H; [reflexivity|].
+  cbn [text_calls map text_content flat_map fst snd] in *.
+  replace (pre n0 =? m) with false by (specialize (H n0 (or_introl eq_refl)); lia).
+  cbn [app]. apply IH. intros n Hn. apply H. now right.
+Qed.
+
+Lemma text_calls_spec (pre : Z -> Z) (src : list text) :
+  NoDup (map fst src) -> (forall a b, pre a = pre b -> a = b) ->
+  (forall n l, In (n, l) src ->
+     text_content (text_calls true pre src) (pre n) = l)
+  /\ (forall m, (forall n, In n (map fst src) -> pre n <> m) ->
+        text_content (text_calls true pre src) m = [])
+  /\ (forall m, text_content (text_calls false pre src) m = []).
+Proof.
+  intros Hnd Hinj. split; [|split; [intros m; apply text_miss|reflexivity]].
+  induction src as [|[n0 l0] t IH]; intros n l Hin; [destruct Hin|].
+  cbn [map fst] in Hnd. inversion Hnd as [|? ? Hni Hnd']; subst.
+  cbn [text_calls map text_content flat_map fst snd].
+  destruct Hin as [E|Hin].
+  - inversion E; subst. rewrite Z.eqb_refl.
+    change (flat_map _ (map _ t))
+      with (text_content (text_calls true pre t) (pre n)).
+    rewrite text_miss; [apply app_nil_r|].
+    intros n' Hn' Epre. apply Hinj in Epre. subst. contradiction.
+  - assert (Hne : n0 <> n).
+    { intros ->. apply Hni. apply in_map_iff. exists (n, l). split; auto. }
+    replace (pre n0 =? pre n) with false
+      by (destruct (Z.eqb_spec (pre n0) (pre n)) as [E|]; [apply Hinj in E; contradiction|reflexivity]).
+    cbn [app]. now apply IH.
+Qed.
+
+Lemma export_texts_spec (A : Type) (d z : A) (enum : Z -> A) rnd cfg pre ds innate
+      sm filt filtered skip logs tables basins features
+      (calls : list (call A)) om :
+  export_full A d z enum rnd cfg pre ds innate sm filt filtered skip logs tables
+              basins features = Ok (calls, om) ->
+  (forall a b, pre a = pre b -> a = b) ->
+  (NoDup (map fst (sm_logs sm)) ->
+     (logs = true -> forall n l, In (n, l) (sm_logs sm) ->
+        text_content (om_logs om) (pre n) = l)
+     /\ (logs = true -> forall m, (forall n, In n (map fst (sm_logs sm)) ->
+                                   pre n <> m) ->
+        text_content (om_logs om) m = [])
+     /\ (logs = false -> forall m, text_content (om_logs om) m = []))
+  /\ (NoDup (map fst (sm_tables sm)) ->
+     (tables = true -> forall n l, In (n, l) (sm_tables sm) ->
+        text_content (om_tables om) (pre n) = l)
+     /\ (tables = true -> forall m, (forall n, In n (map fst (sm_tables sm)) ->
+                                     pre n <> m) ->
+        text_content (om_tables om) m = [])
+     /\ (tables = false -> forall m, text_content (om_tables om) m = [])).
+Proof.
+  intros H Hinj. unfold export_full in H.
+  destruct (export A d z enum cfg ds filt filtered skip
+              (req_features features innate)) as [[cs cnt]|c];
+    cbn [bind] in H; [|discriminate].
+  inversion H; subst. cbn [om_logs om_tables export_meta].
+  split; intros Hnd.
+  - destruct (text_calls_spec pre (sm_logs sm) Hnd Hinj) as (H1 & H2 & H3).
+    repeat split; intros ->; auto.
+  - destruct (text_calls_spec pre (sm_tables sm) Hnd Hinj) as (H1 & H2 & H3).
+    repeat split; intros ->; auto.
+Qed.
+
 Example ex_export_full :
-  export_full Z 0 0 (fun k => k) 7 1
+  export_full Z 0 0 (fun k => k) 7 1 (fun k => k + 1000)
     (mkDs Z true 3 3 [mkFeat Z 0 KScalar [mkPart Z 0 true true 8 [10; 11; 12]];
                       mkFeat Z 1 KScalar [mkPart Z 0 true true 8 [20; 21; 22]]])
-    [0] (mkSmeta None (Some 99) 5 [1; 2] [3]) [true; false; true]
-    true false true false true None
+    [0] (mkSmeta None (Some 99) 5 [(1, [41; 42]); (2, [43])] [(3, [44])])
+    [true; false; true] true false true false true None
   = Ok ([(0, 0, [10; 12])],
-        mkOmeta (Some (Some 99, Some 7)) 5 2 [1; 2] []).
+        mkOmeta (Some (Some 99, Some 7)) 5 2 [(1001, [41; 42]); (1002, [43])] []).
 Proof. vm_compute. reflexivity. Qed.
 
 (* ---- channel count -------------------------------------------------------------- *)
@@ -1016,3 +1165,19 @@ Example ex_chcount :
   rectify_chcount (Some 3) (count_fl [5; 6; 7] [(6, 0, [1; 2])]) = Some 3
   /\ rectify_chcount None (count_fl [5; 6; 7] [(6, 0, [1; 2]); (2, 0, [4])]) = Some 1.
 Proof. vm_compute. split; reflexivity. Qed.
+
+(* finding C02-short-scalar-indexerror: a scalar shorter than the dataset is
+   indexed with the boolean array of len(ds) entries although the filter was
+   clipped to the common length *)
+Lemma export_short_scalar_refuted :
+  exists (ds : dset Z) filt req,
+    wf_ds Z ds /\ len filt = ds_len ds /\
+    export Z 0 0 (fun k => k) 1 ds filt true false req = Err 2.
+Proof.
+  exists (mkDs Z true 3 3
+            [mkFeat Z 0 KScalar [mkPart Z 0 true true 8 [5; 6]];
+             mkFeat Z 1 KScalar [mkPart Z 0 true true 8 [1; 2; 3]]]),
+         [true; true; true], [0; 1].
+  split; [|split; [reflexivity|vm_compute; reflexivity]].
+  unfold wf_ds; cbn. repeat constructor; auto; cbv; discriminate.
+Qed.
